@@ -675,9 +675,11 @@ class WaveSpectrum(DatasetWrapper):
         :param fmax: maximum frequency
         :return: peak indices
         """
-        return xarray.DataArray(
-            self.e.where(self._range(fmin, fmax), 0).argmax(dim=NAME_F)
-        )
+        # Out-of-band and missing values must never win: use -inf for both (a fill of 0
+        # selects an out-of-band bin when all in-band values are <= 0, and an all-NaN
+        # spectrum makes argmax raise for the whole batch).
+        e = self.e.where(self._range(fmin, fmax)).fillna(-np.inf)
+        return xarray.DataArray(e.argmax(dim=NAME_F))
 
     def peak_frequency(
         self, fmin=0.0, fmax=np.inf, use_spline=False, **kwargs
